@@ -4,10 +4,12 @@
 -/
 import Fca.Drv.Util
 import Fca.Drv.C01
+import Fca.Drv.C20
 open Lean Fca.Drv
 
 def allHandlers : List (String × Handler) :=
-  Fca.Drv.C01.handlers
+  Fca.Drv.C01.handlers ++
+  Fca.Drv.C20.handlers
 
 def dispatch (line : String) : String :=
   match Json.parse line with
